@@ -59,6 +59,16 @@ def translate(repo):
                  "if (rline[ind] - Ro) ** 2 + (zline[ind] - Zo) ** 2 > 0.0001:\ncontinue", "xpoint.sort(key=lambda x: (x[2] - psi_axis) ** 2)", "return (opoint, xpoint)"]:
         if frag not in src:
             raise TranslationError(f"find_critical: expected statement missing: {frag[:90]}")
+    # ---- remove_dup: every candidate is compared with EVERY point kept so far (the model's exactly-once theorem is about this loop)
+    rd = [n for n in ast.walk(fn) if isinstance(n, ast.FunctionDef) and n.name == "remove_dup"]
+    if len(rd) != 1:
+        raise TranslationError("find_critical: nested function remove_dup not found")
+    norm = lambda t: "".join(ch for ch in t if ch not in " \n()")
+    want = ("def remove_dup(points): result = [] for n, p in enumerate(points): dup = False for p2 in result: if (p[0] - p2[0]) ** 2 + (p[1] - p2[1]) ** 2 < 1e-05: dup = True break "
+            "if not dup: result.append(p) return result")
+    got = norm(ast.unparse(ast.Module(body=[s_ for s_ in rd[0].body if not (isinstance(s_, ast.Expr) and isinstance(s_.value, ast.Constant))], type_ignores=[])))
+    if got != norm(want.split(":", 1)[1]):
+        raise TranslationError("find_critical.remove_dup: the duplicate-removal loop is not the modelled one (each candidate against every kept point)")
     # ---- Newton residual and Jacobian
     sym = {"R1": ("var", "r"), "f(R1, Z1, dy=1, grid=False)": ("var", "fZ"), "f(R1, Z1, dx=1, grid=False)": ("var", "fR"), "Br": ("var", "Br"), "Bz": ("var", "Bz"),
            "f(R1, Z1, dy=1, dx=1)[0][0]": ("var", "fRZ"), "f(R1, Z1, dx=1, dy=1)[0][0]": ("var", "fRZ"), "f(R1, Z1, dy=2)[0][0]": ("var", "fZZ"), "f(R1, Z1, dx=2)": ("var", "fRR"),
